@@ -100,6 +100,7 @@ static char m_char(void) { return (char)nondet_int(); }
 static char m_store_obj[4], m_p7certs_obj[4], m_stack_obj[4], m_signer_obj[4], m_signer_copy_obj[4], m_sctx_obj[4], m_bio_obj[4], m_subj_obj[4];
 static char m_oid_obj[M_NC][4], m_oid_txt[M_NC][2], m_val[M_NC][M_SL], m_cert_val[M_NC][M_SL];
 static _Bool m_cert_has[M_NC];
+static STACK_OF(X509) *m_p7certs_p; /* the certificates carried inside THE PKCS#7 object (d.sign->cert) */
 static PKCS7 *m_the_p7;                /* the PKCS#7 object of THE signature handed to the function under test */
 static _Bool m_p7_signed;              /* that object is of type signedData (d.sign is a valid pointer only then) */
 static int m_signers;                  /* number of signer certificates PKCS7_get0_signers finds */
@@ -155,7 +156,7 @@ void X509_free(X509 *x) { if (x != NULL) { M_CHECK((char *)x == m_signer_copy_ob
 X509_STORE_CTX *X509_STORE_CTX_new(void) { if (m_bool()) { m_env_failed = 1; return NULL; } m_sctx_made++; return (X509_STORE_CTX *)m_sctx_obj; }
 int X509_STORE_CTX_init(X509_STORE_CTX *c, X509_STORE *trust_store, X509 *target, STACK_OF(X509) *untrusted) {
 	m_sctx_init_calls++;
-	m_sctx_init_args_ok = ((char *)c == m_sctx_obj && (char *)trust_store == m_store_obj && (char *)target == m_signer_copy_obj && m_x509_live > 0 && (char *)untrusted == m_p7certs_obj);
+	m_sctx_init_args_ok = ((char *)c == m_sctx_obj && (char *)trust_store == m_store_obj && (char *)target == m_signer_copy_obj && m_x509_live > 0 && untrusted == m_p7certs_p);
 	m_sctx_init_ret = m_int(0, 1); if (m_sctx_init_ret == 0) m_env_failed = 1;
 	m_sctx_inited = (m_sctx_init_ret != 0);
 	return m_sctx_init_ret;
